@@ -6,7 +6,7 @@
 From Coq Require Import String.
 From Coq Require Import List NArith.
 Import ListNotations.
-From UV Require Import Py.Val Py.Str Py.UrlLib Ural.SuffixTrie Ural.Lru Proofs.LruFacts.
+From UV Require Import Py.Val Py.Str Py.UrlLib Ural.SuffixTrie Ural.Lru Proofs.LruFacts Proofs.LruConverse.
 
 (* if the stems of u are a prefix of the stems of v, the serialized LRU of u is a string prefix
    of that of v *)
@@ -41,6 +41,27 @@ Example C13_descendant_example :
   lru_stems_from_parsed sempty r2 false = lru_stems_from_parsed sempty r1 false ++ [lit "p:b"; lit "q:q=1"].
 Proof. vm_compute. repeat split. Qed.
 
+(* the converse (suffix_aware=False, any suffix trie): if the stems of u -- a site or a section: no query, no fragment,
+   no userinfo (`s_rest u = []`) -- are a prefix of the stems of v, then v lies under u: same scheme, same port stem,
+   and either u stops at its host and v's host units (labels from the top-level one down; a special host is one unit)
+   extend u's, or the host units are equal and v's path segments extend u's by whole segments.  The stems of a url are
+   tagged blocks (s:, t:, h:..., p:..., then q: f: u: w:), and a prefix relation between two such lists decomposes
+   block by block. *)
+Theorem C13_prefix_means_under : forall (t : snode) (r1 r2 : SplitResult) (ext : list str),
+  s_rest r1 = [] ->
+  lru_stems_from_parsed t r2 false = lru_stems_from_parsed t r1 false ++ ext ->
+  scheme r1 = scheme r2 /\ s_port r1 = s_port r2 /\
+  ((segments r1 = [] /\ exists e, host_units r2 = host_units r1 ++ e) \/
+   (segments r1 <> [] /\ host_units r1 = host_units r2 /\ exists e, segments r2 = segments r1 ++ e)).
+Proof. exact stems_prefix_under_components. Qed.
+
+Theorem C13_stems_by_blocks : forall t r,
+  lru_stems_from_parsed t r false =
+  s_scheme r ++ s_port r ++ map (tag "h:") (host_units r) ++ map (tag "p:") (segments r) ++ s_rest r.
+Proof. exact stems_blocks. Qed.
+
+Print Assumptions C13_prefix_means_under.
+Print Assumptions C13_stems_by_blocks.
 Print Assumptions C13_stem_prefix_is_string_prefix.
 Print Assumptions C13_descendant_extends_stems.
 Print Assumptions C13_clean_app.
